@@ -311,6 +311,13 @@ def thunk_code(e, n):
             "    typedef %s;" % e["fnptr"].replace("(*)", "(*F)", 1),
             "    F f = static_cast<F>(&Goldilocks::%s);" % e["function"]]
     body += pre
+    # in-place call forms: the result register is the same object as an input register (the library calls its kernels that way)
+    kinds = {role_of_param[i][1]["role"]: role_of_param[i][1]["param"]["kind"] for i in range(len(e["_params"])) if role_of_param[i][0] == "operand"}
+    if kinds.get("c") == "out_reg":
+        for n_alias, r in ((1, "a"), (2, "b")):
+            if kinds.get(r) == "in_reg":
+                aargs = ["r" + r if x == "rc" else x for x in args]
+                body.append("    if (x.regalias == %d) { f(%s); %s; return; }" % (n_alias, ", ".join(aargs), st % ("x.rc", "r" + r)))
     body.append("    f(%s);" % ", ".join(args))
     body += post
     body.append("}")
